@@ -104,14 +104,14 @@ Qed.
 Inductive fld : Type :=
 | Fdis | Fmand | Flssl | Flauth | Ftyp | Fraw | Fcert | Fjnode | Fst | Fsec | Ftlsp | Ftlsf | Ftlss
 | Fsasl | Fsme | Frp | Foh | Fps | Fh | Fid | Ft | Fsq | Fsmq | Fgs | Fgf | Fcr
-| FhD | FidD.   (* FhD / FidD: stanza / id handlers may be removed *)
+| FhD | FidD | Fdisc.   (* FhD / FidD: stanza / id handlers may be removed; Fdisc: may call conn_disconnect *)
 
 Definition fld_n (f : fld) : nat :=
   match f with
   | Fdis => 0 | Fmand => 1 | Flssl => 2 | Flauth => 3 | Ftyp => 4 | Fraw => 5 | Fcert => 6 | Fjnode => 7
   | Fst => 8 | Fsec => 9 | Ftlsp => 10 | Ftlsf => 11 | Ftlss => 12 | Fsasl => 13 | Fsme => 14 | Frp => 15
   | Foh => 16 | Fps => 17 | Fh => 18 | Fid => 19 | Ft => 20 | Fsq => 21 | Fsmq => 22 | Fgs => 23 | Fgf => 24
-  | Fcr => 25 | FhD => 26 | FidD => 27
+  | Fcr => 25 | FhD => 26 | FidD => 27 | Fdisc => 28
   end%nat.
 Definition fmem (f : fld) (l : list fld) : bool := existsb (fun g => Nat.eqb (fld_n f) (fld_n g)) l.
 
@@ -145,6 +145,7 @@ Definition eq_on (f : fld) (s s' : state) : Prop :=
   | Fcr => crashed s' = crashed s
   | FhD => True
   | FidD => True
+  | Fdisc => True
   end.
 
 Definition frame (chg : list fld) (s s' : state) : Prop := forall f, fmem f chg = false -> eq_on f s s'.
@@ -168,7 +169,7 @@ Ltac solve_frame :=
 (* side condition of frame_weaken / eff_weaken on concrete lists, decided by computation *)
 Definition all_flds : list fld :=
   [Fdis; Fmand; Flssl; Flauth; Ftyp; Fraw; Fcert; Fjnode; Fst; Fsec; Ftlsp; Ftlsf; Ftlss; Fsasl; Fsme; Frp; Foh; Fps;
-   Fh; Fid; Ft; Fsq; Fsmq; Fgs; Fgf; Fcr; FhD; FidD].
+   Fh; Fid; Ft; Fsq; Fsmq; Fgs; Fgf; Fcr; FhD; FidD; Fdisc].
 Definition subl (c c' : list fld) : bool := forallb (fun f => fmem f c' || negb (fmem f c)) all_flds.
 Lemma subl_ok c c' : subl c c' = true -> forall f, fmem f c' = false -> fmem f c = false.
 Proof.
@@ -225,7 +226,8 @@ Record eff (c : list fld) (p : preds) (s s' : state) : Prop := mkEff {
   ef_hkeep : fmem FhD c = false -> forall x, In x (handlers s) -> In x (handlers s');
   ef_ikeep : fmem FidD c = false -> forall k, In k (ik s) -> In k (ik s');
   ef_cr : crashed s = true -> crashed s' = true;
-  ef_sqoff : st s <> Connected -> sendq s' = sendq s
+  ef_sqoff : st s <> Connected -> sendq s' = sendq s;
+  ef_nd : fmem Fdisc c = false -> st s' = st s
 }.
 
 Lemma fmem_app f a b : fmem f (a ++ b) = fmem f a || fmem f b.
@@ -257,7 +259,7 @@ Qed.
 
 Lemma eff_trans c1 c2 p s s1 s2 : eff c1 p s s1 -> eff c2 p s1 s2 -> eff (c1 ++ c2) p s s2.
 Proof.
-  intros [U1 L1 S1 E1 [l1 [Q1 A1]] H1 I1 T1 M1 HK1 IK1 C1 O1] [U2 L2 S2 E2 [l2 [Q2 A2]] H2 I2 T2 M2 HK2 IK2 C2 O2]. constructor.
+  intros [U1 L1 S1 E1 [l1 [Q1 A1]] H1 I1 T1 M1 HK1 IK1 C1 O1 N1] [U2 L2 S2 E2 [l2 [Q2 A2]] H2 I2 T2 M2 HK2 IK2 C2 O2 N2]. constructor.
   - eapply frame_weaken; [|eapply frame_trans; [exact U1|exact U2]].
     intros f Hf. rewrite !fmem_app in *.
     destruct (fmem f c1), (fmem f c2), (fmem f DISC); simpl in *; congruence.
@@ -278,12 +280,13 @@ Proof.
   - intros Hf k Hk. rewrite fmem_app in Hf. apply orb_false_iff in Hf as [Fa Fb]. apply IK2; [exact Fb|]. apply IK1; assumption.
   - intro X. apply C2, C1, X.
   - intro X. rewrite O2, O1; auto. destruct S1 as [Y|Y]; rewrite Y; [exact X|discriminate].
+  - intro Hf. rewrite fmem_app in Hf. apply orb_false_iff in Hf as [Fa Fb]. rewrite (N2 Fb). exact (N1 Fa).
 Qed.
 
 Lemma eff_weaken c c' p q s s' :
   (forall f, fmem f c' = false -> fmem f c = false) -> pimp p q -> eff c p s s' -> eff c' q s s'.
 Proof.
-  intros W [WW [WH [WI WT]]] [U L S E [l [Q A]] H I T M HK IK C O]. constructor.
+  intros W [WW [WH [WI WT]]] [U L S E [l [Q A]] H I T M HK IK C O N]. constructor.
   - eapply frame_weaken; [|exact U]. intros f Hf. rewrite fmem_app in *.
     apply orb_false_iff in Hf as [X Y]. rewrite (W f X), Y. reflexivity.
   - intro Lv. eapply frame_weaken; [exact W|apply L; exact Lv].
@@ -298,6 +301,7 @@ Proof.
   - intro Hf. apply IK. apply W. exact Hf.
   - exact C.
   - exact O.
+  - intro Hf. apply N. apply W. exact Hf.
 Qed.
 
 (* sequencing with weakening to a common (c, p) *)
@@ -330,6 +334,7 @@ Proof.
   - intros _ k Hk. pose proof (F Fid C) as X. cbn in X. rewrite X. exact Hk.
   - exact Hc.
   - intros _. exact (F Fsq A).
+  - intros _. exact (F Fst G).
 Qed.
 Ltac eff_frame :=
   apply eff_of_frame; [solve_frame|reflexivity|reflexivity|reflexivity|reflexivity|reflexivity|reflexivity|
@@ -350,6 +355,7 @@ Proof.
   - left. exact (F Fst G).
   - intro X. left. apply Hs. exact X.
   - intro X. pose proof (F Fcr Hc) as Y. cbn in Y. congruence.
+  - intros _. exact (F Fst G).
 Qed.
 Ltac sme_side := first [intros _; reflexivity | let X := fresh in intro X; discriminate X].
 Ltac same_side :=
@@ -500,7 +506,7 @@ Proof.
 Qed.
 
 (* conn_disconnect: either nothing, or a crash, or the connection is gone *)
-Lemma conn_disconnect_eff p s : eff [Fcr] p s (fst (conn_disconnect s)).
+Lemma conn_disconnect_eff p s : eff [Fcr; Fdisc] p s (fst (conn_disconnect s)).
 Proof.
   unfold conn_disconnect. destruct (st s) eqn:Est; try apply eff_refl.
   all: destruct (negb (sm_alloc s)) eqn:Ea; [cbn [fst]; eff_frame|].
@@ -512,6 +518,7 @@ Proof.
   all: try (let H := fresh in intros _ ? H; exact H).
   all: try (let H := fresh in intros H; exact H).
   all: try (intros _; reflexivity).
+  all: try (let X := fresh in intro X; discriminate X).
   all: intros f H; destruct f; try discriminate H; reflexivity.
 Qed.
 Lemma conn_disconnect_st s : crashed (fst (conn_disconnect s)) = false -> crashed s = false ->
@@ -642,7 +649,7 @@ Ltac psolve := repeat split; cbn; try tauto.
 Lemma eff_absorb c P Ph Pi Pt s s' :
   eff c (mkP (fun x => P x \/ In (fst (fst x)) (sw s)) Ph Pi Pt) s s' -> eff c (mkP P Ph Pi Pt) s s'.
 Proof.
-  intros [U L S E [l [Q A]] H I T M HK IK C O]. constructor; try assumption.
+  intros [U L S E [l [Q A]] H I T M HK IK C O N]. constructor; try assumption.
   exists l. split; [exact Q|]. eapply Forall_impl; [|exact A]. cbn. tauto.
 Qed.
 
@@ -742,7 +749,7 @@ Qed.
 Definition pAuth : preds :=
   mkP (fun _ => True) (fun k => is_saslh k = true \/ k = HProceedTls) (fun k => k = IKLegacy)
       (fun k => k = TMissingLegacy \/ k = TDisconnectCleanup).
-Definition cAuth : list fld := [Ftlss; Fsasl; Fsq; Fh; Fid; Ft; Fcr].
+Definition cAuth : list fld := [Ftlss; Fsasl; Fsq; Fh; Fid; Ft; Fcr; Fdisc].
 
 Lemma mech_step_eff m kh s : is_saslh kh = true ->
   eff [Fsasl; Fsq; Fh] (mkP (fun x => x = (WAuth m, false, negb (sm_enabled s)) \/ x = (WReq, false, true))
@@ -801,7 +808,7 @@ Definition pTrue : preds := mkP (fun _ => True) (fun _ => True) (fun _ => True) 
 Lemma pimp_true p : pimp p pTrue.
 Proof. repeat split; cbn; auto. Qed.
 Definition cAll : list fld :=
-  [Fst; Fsec; Ftlsp; Ftlsf; Ftlss; Fsasl; Fsme; Frp; Foh; Fh; Fid; Ft; Fsq; Fsmq; Fgs; Fgf; Fcr; FhD; FidD].
+  [Fst; Fsec; Ftlsp; Ftlsf; Ftlss; Fsasl; Fsme; Frp; Foh; Fh; Fid; Ft; Fsq; Fsmq; Fgs; Fgf; Fcr; FhD; FidD; Fdisc].
 Definition cAllP : list fld := Fps :: cAll.
 Ltac toA L := eapply eff_weaken; [| |first [apply (L pnone)|apply L]]; [solve_sub|apply pimp_true].
 Ltac frameA := eapply (eff_weaken [] _ pnone); [solve_sub|apply pimp_true|eff_frame].
